@@ -113,6 +113,20 @@ BUILT: dict[str, dict[str, str]] = {
         note="SQLite for the RDB backend; thread interleavings inside a cached client are part of C03.",
         ref="DESIGN.md 3/C08",
     ),
+    "C07": dict(
+        technique="schedule enumeration + property-based testing (Hypothesis): generated multi-backend append/read scenarios on one journal file under a deterministic scheduler whose yield points are the system calls of _file.py (chunked writes); all single-preemption schedules per scenario plus generated 2-3-preemption schedules; oracle from the system-call trace and return values",
+        category="exploration",
+        text="For each generated scenario every single-preemption interleaving of the workers' system calls is executed (long scenarios: strided) and judged: no interleaved appends, one lock holder at a time, reads return exact slices of the append order covering all finished appends, no exceptions, offset caches agree with a fresh reader afterwards. Scenarios are sampled, schedules with more than three preemptions are not explored.",
+        note="'Processes' = backend objects with own lock objects and caches sharing a real file; virtual clock; the os/open/time names of _file.py are rebound from outside (no source hook).",
+        ref="DESIGN.md 2.3, 2.4, 3/C07",
+    ),
+    "C05": dict(
+        technique="fault enumeration + property-based testing (Hypothesis): generated (pre-history, victim calls, continuation) scenarios; the victim's system-call trace on the journal file is enumerated completely as crash points incl. every byte offset of short record writes; SQLite victims are real forked processes SIGKILLed at SQL event boundaries; ModelStorage before/after oracle",
+        category="fault_enumeration",
+        text="Per scenario all crash points of the victim are enumerated (journal: every system-call boundary before/after + torn writes at every byte of records up to 200 bytes; SQLite quick tier: a generated sample of event boundaries, thorough tier: all). After each crash the survivors' view must equal the model after the acknowledged calls or after those plus the interrupted call, and the continuation must behave as the model says. Scenarios themselves are sampled.",
+        note="Crash = process death (no power loss); the dead worker's cleanup code is prevented from running; SQLite's own journal is trusted.",
+        ref="DESIGN.md 2.4, 3/C05",
+    ),
 }
 
 NOT_YET: dict[str, str] = {}
